@@ -79,6 +79,7 @@ class Decoder:
         self.data = data
         self.cfg = cfg
         self.rec = bytearray(len(data)) if record else None
+        self.noncanonical = False  # saw a NaN float or a non-minimal LEB128 (outside C02's byte-fidelity claim)
 
     def need(self, pos: int, n: int, rec: bool = True) -> bytes:
         if pos + n > len(self.data):
@@ -96,7 +97,10 @@ class Decoder:
             return int.from_bytes(b, cfg.bo, signed=t.signed), pos + t.size
         if isinstance(t, TFloat):
             b = self.need(pos, t.size)
-            return pystruct.unpack(cfg.e + t.fmt, b)[0], pos + t.size
+            fv = pystruct.unpack(cfg.e + t.fmt, b)[0]
+            if fv != fv:
+                self.noncanonical = True
+            return fv, pos + t.size
         if isinstance(t, TChar):
             return bytes(self.need(pos, 1)), pos + 1
         if isinstance(t, TWchar):
@@ -108,6 +112,7 @@ class Decoder:
         if isinstance(t, TLeb):
             res = 0
             sh = 0
+            start = pos
             while True:
                 b = self.need(pos, 1)[0]
                 pos += 1
@@ -117,6 +122,8 @@ class Decoder:
                     break
             if t.signed and b & 0x40:
                 res -= 1 << sh
+            if bytes(self.data[start:pos]) != leb_encode(res, t.signed):
+                self.noncanonical = True
             return res, pos
         if isinstance(t, TVoid):
             return None, pos
@@ -256,9 +263,11 @@ def decode(t, data: bytes, pos: int, cfg: Cfg, ctx: dict | None = None):
     return Decoder(data, cfg).decode(t, pos, ctx)
 
 
-def decode_with_mask(t, data: bytes, cfg: Cfg, pos: int = 0):
+def decode_with_mask(t, data: bytes, cfg: Cfg, pos: int = 0, info: dict | None = None):
     d = Decoder(data, cfg, record=True)
     v, end = d.decode(t, pos)
+    if info is not None:
+        info["noncanonical"] = d.noncanonical
     return v, end, bytes(d.rec[pos:end])
 
 
